@@ -129,3 +129,41 @@ package atree
 //@ func (a *Array) setCallbackWithChild(i, child, maxInlineSize)  serves C10 C11
 //@   ensures forall vid ValueID :: has(a.mutableElementIndex, vid) && a.mutableElementIndex[vid] != i ==> old(has(a.mutableElementIndex, vid)) && a.mutableElementIndex[vid] == old(a.mutableElementIndex[vid])
 //@   modifies a.mutableElementIndex, Array.parentUpdater, OrderedMap.parentUpdater, alloc
+
+//@ # ---- inline / standalone decision (C10): Storable() returns the root slab exactly when it is inlinable, else a reference to it
+//@ func (a *Array) Storable(storage, address, maxInlineSize) (st, err)  serves C10
+//@   requires a.Storage != nil && isArr(a.root)
+//@   requires is(a.root, *ArrayDataSlab) ==> as(a.root, *ArrayDataSlab).header.size >= 21 && as(a.root, *ArrayDataSlab).header.size <= 4294967000 &&
+//@        as(a.root, *ArrayDataSlab).header.slabID != SlabIDUndefined
+//@   ensures[C10] err == nil && is(a.root, *ArrayMetaDataSlab) ==> st == iface(SlabIDStorable(hdrOf(a.root).slabID))
+//@   ensures[C10] err == nil && is(a.root, *ArrayDataSlab) ==> as(a.root, *ArrayDataSlab).header.slabID == old(as(a.root, *ArrayDataSlab).header.slabID) &&
+//@        ite(as(a.root, *ArrayDataSlab).inlined, st == a.root, st == iface(SlabIDStorable(as(a.root, *ArrayDataSlab).header.slabID)))
+//@   ensures[C10] err == nil && is(a.root, *ArrayDataSlab) ==> as(a.root, *ArrayDataSlab).inlined ==
+//@        old(as(a.root, *ArrayDataSlab).extraData != nil &&
+//@            ite(as(a.root, *ArrayDataSlab).inlined, as(a.root, *ArrayDataSlab).header.size, as(a.root, *ArrayDataSlab).header.size - 5 + 17) <= maxInlineSize)
+//@   ensures[C06] err == nil && is(a.root, *ArrayDataSlab) ==> as(a.root, *ArrayDataSlab).header.size ==
+//@        old(as(a.root, *ArrayDataSlab).header.size) + ite(as(a.root, *ArrayDataSlab).inlined == old(as(a.root, *ArrayDataSlab).inlined), 0, ite(as(a.root, *ArrayDataSlab).inlined, 12, -12))
+//@   ensures[C09] err == nil && is(a.root, *ArrayDataSlab) && as(a.root, *ArrayDataSlab).inlined && !old(as(a.root, *ArrayDataSlab).inlined) ==> sto[as(a.root, *ArrayDataSlab).header.slabID] == nil
+//@   ensures[C09] err == nil && is(a.root, *ArrayDataSlab) && !as(a.root, *ArrayDataSlab).inlined && old(as(a.root, *ArrayDataSlab).inlined) ==> sto[as(a.root, *ArrayDataSlab).header.slabID] == a.root && has(stored, a.root)
+//@   ensures a.root == old(a.root)
+//@   modifies as(a.root, *ArrayDataSlab).header, as(a.root, *ArrayDataSlab).inlined, ghost.sto, ghost.stored, ghost.touched, alloc
+
+//@ func (a *ArrayDataSlab) Inlinable(maxInlineSize) (r)  serves C10
+//@   requires a.header.size >= 5 && a.header.size <= 4294967000
+//@   ensures r == (a.extraData != nil && ite(a.inlined, a.header.size, a.header.size - 5 + 17) <= maxInlineSize)
+//@   pure
+
+//@ func (a *ArrayDataSlab) Inline(storage) (err)  serves C06 C09 C10
+//@   requires storage != nil && a.header.size >= 5 && a.header.size <= 4294967000
+//@   ensures a.inlined == old(a.inlined) || (err == nil && a.inlined)
+//@   ensures old(a.inlined) ==> err != nil && isFatal(err)
+//@   ensures err == nil ==> a.inlined && a.header.size == old(a.header.size) - 5 + 17 && sto == upd(old(sto), a.header.slabID, nil) && a.header.slabID == old(a.header.slabID)
+//@   ensures err != nil ==> a.header == old(a.header) && a.inlined == old(a.inlined) && categorised(err)
+//@   modifies a.header, a.inlined, ghost.sto, ghost.touched, alloc
+
+//@ func (a *ArrayDataSlab) Uninline(storage) (err)  serves C06 C09 C10
+//@   requires storage != nil && a.header.size >= 17 && a.header.size <= 4294967000
+//@   ensures !old(a.inlined) ==> err != nil && isFatal(err) && a.header == old(a.header)
+//@   ensures old(a.inlined) ==> !a.inlined && a.header.size == old(a.header.size) - 17 + 5 && a.header.slabID == old(a.header.slabID)
+//@   ensures err == nil ==> sto[a.header.slabID] == a && has(stored, a)
+//@   modifies a.header, a.inlined, ghost.sto, ghost.stored, ghost.touched, alloc
